@@ -92,6 +92,20 @@ def tests(R):
                  'parameter, or a send path that skips write()\'s checks): a send that loses the race against close() is '
                  'written after the Close frame' % (q.rsplit('.', 1)[1], prop), func=q, node=c,
                  construct='%s %s test placement' % (q, prop))
+    # the lock excludes the thread that holds it too: with a re-entrant lock a close() that runs on the sending thread while it
+    # is inside write() (a signal handler, a callback of the socket wrapper) walks through the section, writes the Close and
+    # the interrupted data frame follows it.  (A re-entrant lock is only needed by a close() that itself holds the lock
+    # around the Close send and the flag store - the C12.set repair.)
+    gc = R.cfg(WS + '.close')
+    sc = calls_to(R, gc, WS + '._send_close')
+    close_holds = bool(sc) and all(lock_frames(R, gc, n_) for (n_, _) in sc)
+    w = stores_in_package(R, '_lock')
+    for (c_, s_, t_, v_) in w:
+        re_ = isinstance(v_, ast.Call) and U(v_.func).rsplit('.', 1)[-1] in ('RLock', '_RLock', '_CRLock', '_PyRLock')
+        R.ob('C12.tests', 'the write lock is not re-entrant', not re_ or close_holds,
+             'the session lock is created as `%s`: a close() that runs on the thread that is inside write() (signal handler, '
+             'wrapper callback) enters the critical section again, writes the Close frame and sets closing; the interrupted '
+             'data frame is written after the Close' % U(v_), func=c_.func, node=s_, construct='re-entrant session lock')
     R.ob('C12.guard', 'closing re-validated under the lock by every socket write', all(secs), 'a socket write without a critical section',
          func=S + '.write', node=None, construct='revalidation')
 
